@@ -594,3 +594,102 @@ def router_reconnect(name, transport="tcp"):
                                     {"op": "send_mp", "sock": "d2", "mid": "d2:1", "sizes": [24], "timeout_ms": 2500},
                                     {"op": "recv_mp", "sock": "d2", "timeout_ms": 2500},
                                     {"op": "recv_mp", "sock": "d2", "timeout_ms": 2500}]}]}
+
+
+# ---- heartbeats at socket level (C19) ----------------------------------------------------
+def _hb_scenario(name, mode, ivl, tmo, v2=False, sock_type="PULL", peer_type=b"PUSH", dur=None, uring=False):
+    dur = dur or (ivl * 3 + tmo + 1200)
+    opts = [i32(HEARTBEAT_IVL, ivl), i32(HEARTBEAT_TIMEOUT, tmo)] + ([i32(IO_URING_SESSION_ENABLED, 1)] if uring else [])
+    if v2:
+        hs = bytes([0xFF, 0, 0, 0, 0, 0, 0, 0, 1, 0x7F, 0x01, 0x08, 0x00, 0x00])    # v2 greeting: signature, rev 1, socket type PUSH (8), identity frame (empty)
+        hs_hex = hexs(hs)
+    else:
+        hs_hex = hexs(greeting() + ready(peer_type))
+    rops = [{"op": "barrier", "name": "go", "parties": 2}, {"op": "raw_connect", "raw": "c", "ep": "$ep"}, {"op": "raw_write", "raw": "c", "hex": hs_hex},
+            {"op": "raw_read", "raw": "c", "n": 64 + 28 if not v2 else 12, "timeout_ms": 500}, {"op": "mark", "name": "hs_done"},
+            {"op": "raw_hb_peer", "raw": "c", "mode": mode, "ms": dur, "data_every_ms": max(ivl // 3, 20)}]
+    return {"name": name, "uring": uring, "deadline_ms": dur + 15000,
+            "meta": {"mode": mode, "ivl": ivl, "timeout": tmo, "v2": v2, "uring": uring},
+            "sockets": [{"name": "rx", "type": sock_type, "opts": opts}],
+            "tasks": [{"name": "s", "ops": [{"op": "bind", "sock": "rx", "ep": "tcp://127.0.0.1:0", "save": "ep"}, {"op": "barrier", "name": "go", "parties": 2},
+                                           {"op": "recv_n", "sock": "rx", "n": 400, "timeout_ms": dur + 500}]},
+                      {"name": "r", "ops": rops}]}
+
+
+def c19_sockets(ctx):
+    thorough = ctx.tier == "thorough"
+    scs = []
+    for (ivl, tmo) in ([(200, 300), (400, 200), (150, 600)] if thorough else [(200, 300)]):
+        for mode in ["silent", "pong", "data"]:
+            scs.append(_hb_scenario("hb-%s-%d-%d" % (mode, ivl, tmo), mode, ivl, tmo))
+    scs.append(_hb_scenario("hb-v2-silent", "silent", 200, 300, v2=True, dur=1500))
+    if thorough:
+        scs.append(_hb_scenario("hb-router-pong", "pong", 200, 300, sock_type="ROUTER", peer_type=b"DEALER"))
+    metas = [s.pop("meta") for s in scs]
+    res = run_scenarios(ctx, scs, "c19", timeout=900, jobs=3)
+    runs, owners = [], []
+    for sc, meta, r in zip(scs, metas, res):
+        t0 = next((x["t"] for x in r["records"] if x.get("ev") == "mark" and x.get("name") == "hs_done"), None)
+        rp = {"kind": "recorded-trace", "scenario": sc, "hung": r["hung"], "panics": r["panics"],
+              "records": [x for x in r["records"] if x.get("op", "").startswith("hb_")][:80]}
+        if r["panics"]:
+            ctx.violation("C19:panic:socket", "%s: %s" % (sc["name"], r["panics"][0]), rp)
+        if t0 is None:
+            ctx.note("%s: raw peer did not get through the handshake" % sc["name"])
+            continue
+        ev = [{"e": "reset", "ivl": meta["ivl"], "timeout": meta["timeout"], "v2": meta["v2"], "mode": meta["mode"], "t": t0}]
+        for x in r["records"]:
+            op = x.get("op", "")
+            if op == "hb_ping":
+                ev.append({"e": "ping", "t": x["t"], "ctx": x.get("ctx", "")})
+            elif op == "hb_act":
+                ev.append({"e": "act", "t": x["t"]})
+            elif op == "hb_end":
+                ev.append({"e": "eof" if x.get("eof") else "end", "t": x["t"]})
+        runs.append(ev)
+        owners.append((sc, meta, rp))
+    pending = list(range(len(runs)))
+    guard = 0
+    rejected = []
+    while pending and guard < 20:
+        guard += 1
+        flat, starts = [], []
+        for i in pending:
+            starts.append((len(flat), i))
+            flat += runs[i]
+        path = os.path.join(ctx.work, "hb_%d.ndjson" % guard)
+        vlib.write_jsonl(path, flat)
+        tres = ctx.trace_check("Trace_Heartbeat", "Trace_Heartbeat.cfg", path)
+        ctx.extra["heartbeat_events_validated"] = ctx.extra.get("heartbeat_events_validated", 0) + max(tres.generated - 1, 0)
+        if not tres.rejected:
+            break
+        at = tres.rejected[0][1]
+        own = max((s for s in starts if s[0] <= at), key=lambda s: s[0])
+        rejected.append((own[1], at - own[0]))
+        pending = [i for i in pending if i > own[1]]
+    for (i, at) in rejected:
+        sc, meta, rp = owners[i]
+        x = runs[i][at]
+        what = {"ping": "a PING arrived %s" % ("on a ZMTP/2.0 connection" if meta["v2"] else "before the connection had been idle for HEARTBEAT_IVL=%d ms" % meta["ivl"]),
+                "eof": "the connection was closed although the peer %s, or not within HEARTBEAT_TIMEOUT=%d ms of the unanswered PING" % (
+                    {"pong": "answered every PING", "data": "kept sending data", "silent": "was silent"}[meta["mode"]], meta["timeout"]),
+                "end": "a peer that %s was still connected, or no PING came while the connection was idle" % (
+                    "answers nothing" if meta["mode"] == "silent" else "is alive")}.get(x["e"], json.dumps(x))
+        ctx.violation("C19:socket:%s:%s" % (x["e"], meta["mode"] + ("-v2" if meta["v2"] else "")), "%s: %s (t=%s)" % (sc["name"], what, x.get("t")), dict(rp, rejected_event=x))
+    ctx.traces += 0
+    ctx.extra["socket_level_heartbeat_runs"] = len(runs)
+    pings = sum(1 for ev in runs for e in ev if e["e"] == "ping")
+    ctx.extra["pings_observed"] = pings
+    if runs and pings == 0:
+        raise vlib.ToolError("no PING was observed at socket level: the heartbeat scenarios do not work")
+    # binding self-test: a dropped answering peer must be rejected
+    for ev, (sc, meta, rp) in zip(runs, owners):
+        if meta["mode"] == "pong" and not any(e["e"] == "eof" for e in ev):
+            bad = [dict(e) for e in ev if e["e"] != "end"] + [{"e": "eof", "t": ev[-1]["t"]}]
+            path = os.path.join(ctx.work, "hb_pert.ndjson")
+            vlib.write_jsonl(path, bad)
+            t2 = ctx.trace_check("Trace_Heartbeat", "Trace_Heartbeat.cfg", path)
+            ctx.selftest["perturbed_heartbeat_history_rejected"] = bool(t2.rejected)
+            if not t2.rejected:
+                raise vlib.ToolError("binding self-test failed: a live peer being disconnected was accepted")
+            break
